@@ -98,7 +98,7 @@ COMMON_FRAME = """        final(context).question_stack@ == old(context).questio
 SPECS = {
     "Nameservers::match_count": {"props": [], "mode": "assume", "contract": "    ensures r == self.name.labels@.len(), // upstream_filter: Nameservers::match_count"},
     "resolve_combined_recursive": {
-        "props": ["C10"],
+        "props": ["C10", "C08"],
         "header_rewrites": [("R32", r"\basync fn\b", "fn")],
         "rewrites": [("R30", r"\s*\.instrument\(tracing::\w+!\((?:[^()]|\([^()]*\))*\)\)", ""), ("R32", r"\s*\.await\b", "")],
         "contract": """    requires old(context).wf(), old(context).r.upstream_dns_port == configured_port(),
@@ -113,7 +113,7 @@ SPECS = {
     decreases ctx_limit(old(context)) - old(context).question_stack@.len(), 1int,""",
         "entry": L.BU + " broadcast use group_chain, lemma_chain_concat_b, lemma_merged_nil_b, lemma_nil_concat_b, axiom_rr_vec_len, group_typed, group_local_first, group_any_alias;"},
     "resolve_with_nameserver_response": {
-        "props": ["C06", "C10"],
+        "props": ["C06", "C10", "C08"],
         "header_rewrites": [("R32", r"\basync fn\b", "fn")],
         "rewrites": [("R30", r"\s*\.instrument\(tracing::\w+!\((?:[^()]|\([^()]*\))*\)\)", ""), ("R32", r"\s*\.await\b", "")],
         "contract": """    requires old(context).wf(), old(context).r.upstream_dns_port == configured_port(), validated(nameserver_response), resp_shape(nameserver_response, *question),
@@ -147,8 +147,20 @@ CANDIDATES = {
 }"""}],
 }
 
+WRAPPER = {
+    "props": ["C08", "C10", "C01"], "depub": True,
+    "header_rewrites": [("R32", r"\basync fn\b", "fn")],
+    "rewrites": [("R32", r"\s*\.await\b", "")],
+    "contract": """    requires old(context).wf(), old(context).r.upstream_dns_port == configured_port(),
+    ensures
+""" + COMMON_FRAME + """
+        question.qtype != QueryType::Wildcard && r is Ok ==> chain_ok(resolved_rrs(r->Ok_0), question.name), // [C10:recursive_chain_in_order_from_the_question_name]
+        r is Ok ==> typed_ok(resolved_rrs(r->Ok_0), question.qtype), // [C10:recursive_answer_holds_only_aliases_and_records_of_the_asked_type]
+        budgeted(r) || r == Err::<ResolvedRecord, ResolutionError>(ResolutionError::Timeout), // [C08:every_resolution_runs_under_its_budget_or_reports_a_timeout]""",
+}
+
 RRN = {
-    "props": ["C01", "C06", "C10", "C18"],
+    "props": ["C01", "C06", "C10", "C18", "C08"],
     "header_rewrites": [("R32", r"\basync fn\b", "fn")],
     "rewrites": [("R30", r"\s*\.instrument\(tracing::\w+!\((?:[^()]|\([^()]*\))*\)\)", ""), ("R32", r"\s*\.await\b", ""),
                  ("R39", r"\.and_then\(\|res\| validate_nameserver_response\(question, &res, match_count\)\)",
@@ -266,11 +278,16 @@ pub struct ExSocketAddr(std::net::SocketAddr);""")
     G.top_fn(R, "candidate_nameservers", specs)
     G.top_fn(R, "resolve_recursive_notimeout", specs)
     G.top_fn(R, "resolve_with_nameserver_response", specs)
+    G.raw(timeout_standin(60_000_000_000, "every_resolution_has_a_60_second_budget"), ("spec", "timeout stand-in"))
+    specs["resolve_recursive"] = dict(WRAPPER)
+    G.top_fn(R, "resolve_recursive", specs)
     G.top_fn(R, "resolve_combined_recursive", specs)
     end(G)
 
 
 CANARIES = [
+    {"name": "resolution_budget_ten_minutes", "file": REC, "old": "        Duration::from_mins(1),\n        resolve_recursive_notimeout(context, question),", "new": "        Duration::from_mins(10),\n        resolve_recursive_notimeout(context, question),"},
+    {"name": "resolution_without_a_budget", "file": REC, "old": "    if let Ok(res) = timeout(\n        Duration::from_mins(1),\n        resolve_recursive_notimeout(context, question),\n    )\n    .await\n    {\n        res\n    } else {", "new": "    if let Ok(res) = Ok::<_, ()>(resolve_recursive_notimeout(context, question).await) {\n        res\n    } else {"},
     {"name": "empty_candidate_set_returned", "file": REC, "old": "            if !hostnames.is_empty() {\n                return Some(Nameservers {", "new": "            if true {\n                return Some(Nameservers {"},
     {"name": "upstream_query_to_port_53", "file": REC, "old": "(ip, context.r.upstream_dns_port).into(),", "new": "(ip, 53).into(),"},
     {"name": "validator_told_depth_zero", "file": REC, "old": ".and_then(|res| validate_nameserver_response(question, &res, match_count))", "new": ".and_then(|res| validate_nameserver_response(question, &res, 0))"},
